@@ -173,7 +173,6 @@ package jsonrpc2
 // The handler goroutine releases the dispatcher only after Handle has returned (deferred, soft), or earlier if the
 // handler itself called Async.
 //@ func (*Connection).handleAsync$2 [C03]
-//@   requires releaser != nil
 //@   track c.handler.Handle as handle
 //@   track release as releaseDispatcher
 //@   track processResult as finish
@@ -185,9 +184,9 @@ package jsonrpc2
 
 // release closes the channel exactly once; a second hard release (Async called twice) panics by design.
 //@ func (*releaser).release [C03]
-//@   requires r != nil
-// r.released and the closing of r.ch change together, only here, under r.mu (object invariant, assumed at entry)
-//@   assume r.ch != nil && (r.released <==> closed(r.ch))
+// releasers are only created (non-nil, with an open channel) by handleAsync; r.released and the closing of r.ch change
+// together, only here, under r.mu (object invariant, assumed at entry)
+//@   assume r != nil && r.ch != nil && (r.released <==> closed(r.ch))
 //@   modifies r.released, chanState
 //@   panics when r.released && !soft
 //@   ensures @released closed(r.ch) && r.released
@@ -211,3 +210,11 @@ package jsonrpc2
 //@   ensures @answered-unless-unencodable isCall && callResult(mkResponse, 1, 1) == nil ==> calls(respond) == 1
 //@   ensures @notifications-are-never-answered !isCall ==> calls(respond) == 0 && calls(unindex) == 0 && calls(mkResponse) == 0
 //@   ensures @slot-released-once calls(releaseSlot) == 1
+
+// Async releases the dispatcher early. The value stored under asyncKey is the non-nil releaser that handleAsync
+// put there (the only place the key is set): assumed.
+//@ func Async [C03]
+//@   track release as releaseDispatcher
+//@   modifies *
+//@   assert at call release: @hard-release !$1
+//@   ensures @at-most-one-release calls(releaseDispatcher) <= 1
